@@ -461,7 +461,7 @@ theorem addFields_rows (n : Nat) (cols new : Cols α) (h : WFn n cols) (hn : WFn
   · simp [hi]
 
 /-! ### every operation preserves the invariant; so does every program -/
-theorem step_wf (key : α → Int) (cols r : Cols α) (op : Op α) (hw : WF cols) (h : step key cols op = some r) : WF r := by
+theorem step_wf (cols r : Cols α) (op : Op α) (hw : WF cols) (h : step cols op = some r) : WF r := by
   cases op with
   | take ix => exact take_wf ix cols r hw h
   | mask m => exact mask_wf m cols r hw h
@@ -481,7 +481,7 @@ theorem step_wf (key : α → Int) (cols r : Cols α) (op : Op α) (hw : WF cols
       simp only [Option.some.injEq] at h; subst h
       exact concat_wf o cols ((wfB_iff o).mp hc.1) hw
     · simp at h
-  | sortBy j => exact sortBy_wf key j cols r hw h
+  | sortBy j key => exact sortBy_wf key j cols r hw h
   | replace j c =>
     simp only [step, replaceCol] at h
     split at h
@@ -499,14 +499,14 @@ theorem step_wf (key : α → Int) (cols r : Cols α) (op : Op α) (hw : WF cols
     · simp at h
 
 /-- **invariant**: after any finite sequence of operations all columns still have equal length -/
-theorem inv (key : α → Int) (ops : List (Op α)) (cols r : Cols α) (hw : WF cols) (h : run key ops cols = some r) : WF r := by
+theorem inv (ops : List (Op α)) (cols r : Cols α) (hw : WF cols) (h : run ops cols = some r) : WF r := by
   induction ops generalizing cols with
   | nil => simp only [run, Option.some.injEq] at h; subst h; exact hw
   | cons op ops ih =>
     simp only [run] at h
     split at h
     · rename_i c' hc'
-      exact ih c' (step_wf key cols c' op hw hc') h
+      exact ih c' (step_wf cols c' op hw hc') h
     · simp at h
 
 
@@ -574,7 +574,7 @@ example : take [2, 0, 2] [[1, 2, 3], [10, 20, 30]] = some [[3, 1, 3], [30, 10, 3
 example : mask [true, false, true] [[1, 2, 3], [10, 20, 30]] = some [[1, 3], [10, 30]] := by decide
 example : ∃ r, sortBy (fun (x : Int) => x) 0 [[3, 1, 2], [10, 20, 30]] = some r :=
   sortBy_total _ 0 _ ((wfB_iff _).mp (by decide)) (by decide)
-example : run (fun (x : Int) => x) [.mask [true, true, false], .concat [[7], [70]], .take [2, 0, 1], .replace 0 [0, 0, 0]]
+example : run [.mask [true, true, false], .concat [[7], [70]], .take [2, 0, 1], .replace 0 [0, 0, 0]]
     [[3, 1, 2], [30, 10, 20]] = some [[0, 0, 0], [70, 30, 10]] := by decide
 example : replaceCol 1 [5] [[1, 2, 3], [10, 20, 30]] = none := by decide
 
